@@ -2000,7 +2000,8 @@ def oracle(case, obs):
         quit_seen = False
         for n, st in enumerate(obs["steps"]):
             closed = any(fd is None for _, fd in st["socks"])
-            quit_seen = quit_seen or st["act"][0] == "quit"
+            # (`restart` without a name restarts the arbiter itself: circusd shuts this one down and builds a new one)
+            quit_seen = quit_seen or st["act"][0] in ("quit", "restart_all")
             if closed and not quit_seen and not st.get("blocked"):
                 # only a shutdown closes the managed sockets: a request that restarts or reloads watchers leaves the
                 # sockets bound at startup open, or no later worker generation can be handed them
